@@ -22,6 +22,8 @@
    stand-alone form (hypothesis W_seg). *)
 From Coq Require Import ZArith List Bool Sorted.
 From FT Require Import Base.Dict Model.Edit Model.EditExec Proofs.EditInv Proofs.EditSeg Proofs.EditSegUndo Proofs.EditFresh Proofs.EditSegExample.
+From FT Require Proofs.EditWFEdge.
+From FT Require Gen.History_gen Proofs.HistoryGen Props.C02.
 Import ListNotations.
 Open Scope Z_scope.
 
@@ -164,6 +166,28 @@ Proof. exact paint_undo. Qed.
 (* ---------- non-vacuity ---------- *)
 (* ex0 (Proofs/EditSegExample.v): frames  1 1 / 0 0 ,  2 2 / 3 0 ,  0 4 / 4 0 ; node 1 (t=0) divides into
    2 and 3 (t=1), 2 continues to 4 (t=2); regionprops keys pos, area active; IoU active *)
+(* ---- every state reachable by edge-level calls (add / delete edge with and without force, swap,
+        queries, fresh ids) from a well-formed state is well formed: WF includes W_seg (labels and
+        nodes in one-to-one correspondence) and W_fresh (every active regionprops feature is the value
+        of the current mask, every IoU the overlap of the current masks).  Induction over the call
+        list, no bound on its length. ---- *)
+Theorem C07_run_edge_calls : forall ops st,
+  forallb EditWFEdge.edge_fragment ops = true -> WF st -> WF (run st ops).
+Proof. exact EditWFEdge.run_edge_WF. Qed.
+
+(* ---- undo / redo: the history mechanism this property quantifies over (Tracks.undo / redo,
+        ActionHistory) is, in the model, the code translated on every run from the current
+        actions/action_history.py (Gen/History_gen.v); C02_timeline states what it guarantees ---- *)
+Theorem C07_history_is_generated : forall st a dA,
+  (let h := fst (FT.Gen.History_gen.add_new_action state action (FT.Proofs.HistoryGen.to_hist st) a st) in
+   undo_stack (hist_add st a) = FT.Gen.History_gen.undo_stack _ _ h /\ redo_stack (hist_add st a) = FT.Gen.History_gen.redo_stack _ _ h) /\
+  (let gr := FT.Gen.History_gen.undo state action FT.Proofs.HistoryGen.inv_total dA (FT.Proofs.HistoryGen.to_hist st) in
+   match undo st with
+   | Ok b s' => snd gr = b /\ undo_stack s' = FT.Gen.History_gen.undo_stack _ _ (fst gr) /\ redo_stack s' = FT.Gen.History_gen.redo_stack _ _ (fst gr)
+   | Err _ _ => True
+   end).
+Proof. exact FT.Props.C02.C02_edit_machine_uses_generated. Qed.
+
 Example C07_ex0_W_seg : seg ex0 = Some sg0 /\ W_seg ex0 /\ ~ In KTime (rp_act (ft ex0)).
 Proof. split; [reflexivity|split; [exact ex0_W_seg|exact (proj1 ex0_cfg)]]. Qed.
 
@@ -250,3 +274,5 @@ Print Assumptions C07_W_seg_upd_track.
 Print Assumptions C07_paint_exact.
 Print Assumptions C07_paint_error_restores.
 Print Assumptions C07_paint_undo.
+Print Assumptions C07_run_edge_calls.
+Print Assumptions C07_history_is_generated.
